@@ -324,7 +324,7 @@ def heap_runs(chk):
         # all histories of length 2 whose left operand starts EMPTY (no terms) / identity-only: "op with an empty left
         # operand, then an in-place op on the result" - a result that adopted an operand's dictionary shows as a frame violation
         runs.append(dict(tag="%s_d2_empty" % fam, fam=fam, module="C16OperatorHeap", workers=W + 2,
-                         cfg=heap_cfg(fam, 2, "ClsSmall" if quick else "ClsMain", "ClsSmall", "ValsZero" if quick else "ValsZeroId",
+                         cfg=heap_cfg(fam, 2, "ClsSmall" if quick else "ClsMain", "ClsSmall", "ValsZeroId",
                                       "ValsOnlyB" if quick else "ValsBZ", scalars="ScalarsOne", targets="TargetsC" if quick else "TargetsAC",
                                       zero="ZeroNone" if quick else "ZeroAll")))
         # all histories of length 2 on shared operands
